@@ -160,8 +160,11 @@ def _work(args):
         # fault injection at every line event for representative shapes
         if case["input"] == "ok" and shape_key(case) in do_faults_keys and ev["completed"]:
             n_sites = tr.n
-            for n in range(1, n_sites + 1):
-                fev, ftr, fb, fa, _ = faults.run_case(case, workdir, seed, fault_at=n)
+            kinds = sorted(faults.FAULT_KINDS)
+            plan = [(n, "plain") for n in range(1, n_sites + 1)] + [(n, kinds[(n // 3) % len(kinds)]) for n in range(1, n_sites + 1, 3)]
+            for n, kind in plan:
+                fev, ftr, fb, fa, _ = faults.run_case(case, workdir, seed, fault_at=n, kind=kind)
+                fev["fault_kind"] = kind
                 out["n_exec"] += 1
                 out["fault_sites"] += 1
                 fev["result"] = {"names": [], "metas": []}
@@ -169,7 +172,7 @@ def _work(args):
                 if not fev["injected"]:
                     # the run did not reach event n or swallowed the fault: record as it is
                     fev["site"] = "none"
-                add(fev, {"case": case, "fault_at": n, "outcome": fev["outcome"]})
+                add(fev, {"case": case, "fault_at": n, "fault_kind": kind, "outcome": fev["outcome"]})
     out["events"] = list(out["events"].values())
     return out
 
@@ -230,7 +233,8 @@ def _large_fault(args):
     case, seed, workdir, n = args
     os.makedirs(workdir, exist_ok=True)
     faults.install_audit()
-    fev, ftr, fb, fa, _ = faults.run_case(case, workdir, seed, fault_at=n)
+    kinds = sorted(faults.FAULT_KINDS)
+    fev, ftr, fb, fa, _ = faults.run_case(case, workdir, seed, fault_at=n, kind=kinds[n % len(kinds)])
     return n, {k: v for k, v in fev.items() if k not in ("doc", "audit")}
 
 
